@@ -162,6 +162,41 @@ def run(ctx, idx):
             continue
         kept = all(cfg.must_pass_through(m, h, appends) for m in body_in)
         line_ = h.line
+        if not kept:
+            # an entry may be left out when the test that lets it go also establishes that the parameter is not a required one
+            # (what the missing-parameter gate counted on is then still there)
+            def optional_when(e, outcome, depth=0):
+                if isinstance(e, ast.Name) and depth < 4:
+                    d_ = K.single_defs(ac).get(e.id)
+                    return d_ is not None and optional_when(d_, outcome, depth + 1)
+                if isinstance(e, ast.UnaryOp) and isinstance(e.op, ast.Not):
+                    return optional_when(e.operand, not outcome, depth)
+                if isinstance(e, ast.BoolOp):
+                    if isinstance(e.op, ast.And) and outcome:
+                        return any(optional_when(v_, True, depth) for v_ in e.values)
+                    if isinstance(e.op, ast.Or) and not outcome:
+                        return any(optional_when(v_, False, depth) for v_ in e.values)
+                    return False
+                if isinstance(e, ast.Compare) and len(e.ops) == 1 and "required_inputs" in K.src(e.comparators[0]):
+                    return (isinstance(e.ops[0], ast.NotIn) and outcome) or (isinstance(e.ops[0], ast.In) and not outcome)
+                return False
+
+            seen_, work_, leak = set(), list(body_in), False
+            while work_:
+                x_ = work_.pop()
+                if x_ in seen_ or x_ in appends:
+                    continue
+                seen_.add(x_)
+                if x_ is h:
+                    leak = True
+                    break
+                for m_, lab_ in x_.succ:
+                    if x_.kind == "test" and lab_ in ("true", "false") and optional_when(x_.ast, lab_ == "true"):
+                        continue  # beyond this edge the parameter is known to be optional
+                    if lab_ == "exc" or m_.kind in ("raise", "raise_exit"):
+                        continue
+                    work_.append(m_)
+            kept = not leak
     if kept is None:
         for n in own_nodes(ac.node):
             if isinstance(n, ast.Assign) and len(n.targets) == 1 and isinstance(n.targets[0], ast.Name) and n.targets[0].id in listnames and isinstance(n.value, ast.ListComp) and "arguments" in K.src(n.value.generators[0].iter):
